@@ -461,6 +461,9 @@ impl PrettyPrinter {
             return line;
         }
 
+        // the widths of a table are those of its own rows: what an earlier frame needed for rows that are
+        // gone must not cut cells that fit now
+        self.column_widths = HashMap::new();
         aggregate.data.iter().for_each(|row| {
             let new_widths = self.compute_column_widths(row);
             self.column_widths.extend(new_widths);
